@@ -47,5 +47,5 @@ Next == Step( \/ \E s \in SeqsUpTo(Opts, MaxFull) : vec' = Ev(s, "full")
                     vec' = Ev([ i \in DOMAIN s |-> <<s[i], i % 3 = 0>> ], "kinds")
               \/ \E ty \in {"application/vnd.oci.empty.v1+json", "application/org.other.v1.artifact"} :
                     vec' = [ev |-> "artifact", in |-> [dir |-> Dir, name |-> "foreign", foreign |-> TRUE, artifact_type |-> ty, layers |-> <<>>]] )
-Emit == phase = 1 => PrintT(<<"VEC", ToJson(vec)>>)
+Emit == phase = 1 => PrintT("VEC " \o ToJson(vec))
 =============================================================================
